@@ -121,6 +121,8 @@ class World(OpsMixin, OracleMixin):
                         g.ev.set()
                     for _ in getattr(self, "qwaiters", ()):
                         self._libq.put_nowait(None)
+                    if self._aux is not None:
+                        self._aux._closed.set()  # (harness teardown only: release whoever still waits for the auxiliary pool)
         finally:
             self.by_task.clear()
         return self.result()
@@ -341,7 +343,7 @@ class World(OpsMixin, OracleMixin):
                             self.cancel_seen(t, "w")
                     return "cancelled", ce
                 return "cancelled", ce
-            if t.pending and ins[0] in ("y", "g", "q", "f") and (ins[0] != "y" or ins[1] > 0) and (ins[0] not in ("q", "f") or t.q_suspended):
+            if t.pending and ins[0] in ("y", "g", "q", "f", "u") and (ins[0] != "y" or ins[1] > 0) and (ins[0] not in ("q", "f", "u") or t.q_suspended):
                 self.delivery_violation(t, f"task {t.tid} resumed normally from a suspension although a cancellation had been requested before (not delivered at its next suspension point)")
                 t.pending = False
                 t.owed -= 1
@@ -365,6 +367,18 @@ class World(OpsMixin, OracleMixin):
             await self._gate("w", t)
         elif op == "q":
             await self._qblock(t)
+        elif op == "u":
+            # the worker waits for another pool of the program to be closed: `await other.until_closed()`
+            t.q_suspended = False
+            if not (self.draining and not self.checks_on):
+                aux = self.aux_pool()
+                t.q_suspended = True
+                self.uwaiters += 1
+                self.sit["until_closed.wait" + (".with_others" if self.uwaiters > 1 else "")] += 1
+                try:
+                    await aux.until_closed()
+                finally:
+                    self.uwaiters -= 1
         elif op == "f":
             # a housekeeping worker: it awaits flush() of its own pool inline (its suspension point lies inside the pool)
             t.q_suspended = False
@@ -373,6 +387,20 @@ class World(OpsMixin, OracleMixin):
                 await self._flush(t.pool, True, True, None, inline=t)
         elif op == "op":
             self.do_op(ins[1], ("worker", t))
+
+    uwaiters = 0
+    _aux = None
+
+    def aux_pool(self):
+        if self._aux is None:
+            self._aux = self.mods.pool.TaskPool(name="vf-aux")
+        return self._aux
+
+    async def close_aux(self):
+        aux, self._aux = self._aux, None
+        if aux is not None:
+            aux.lock()
+            await aux.gather_and_close()
 
     def libq(self):
         q = getattr(self, "_libq", None)
@@ -858,9 +886,11 @@ class World(OpsMixin, OracleMixin):
         for _ in range(200):
             await self.idle(quiet=True)
             qw = len(getattr(self, "qwaiters", ()))
-            if not self.gates and not qw:
+            if not self.gates and not qw and not self.uwaiters:
                 break
             self.open_gates(("all",))
+            if self.uwaiters:
+                await self.close_aux()
             if qw:
                 self.op_qput({"n": qw}, ("conductor",))
         else:
